@@ -149,4 +149,44 @@ theorem skel_ticket_saveSession_ok : skel_ticket_saveSession = ([
   "return fmt.Errorf(\"failed to encode the session state with the tick",
   "return saver(t.id, ciphertext, t.options.Expire)"] : List String) := rfl
 
+theorem skel_client_Get_ok : skel_client_Get = ([
+  "return c.Client.Get(ctx, key).Bytes()",
+  "c.Client.Get(ctx, key).Bytes",
+  "c.Client.Get"] : List String) := rfl
+
+theorem skel_client_Set_ok : skel_client_Set = ([
+  "return c.Client.Set(ctx, key, value, expiration).Err()",
+  "c.Client.Set(ctx, key, value, expiration).Err",
+  "c.Client.Set"] : List String) := rfl
+
+theorem skel_client_Del_ok : skel_client_Del = ([
+  "return c.Client.Del(ctx, key).Err()",
+  "c.Client.Del(ctx, key).Err",
+  "c.Client.Del"] : List String) := rfl
+
+theorem skel_client_Ping_ok : skel_client_Ping = ([
+  "return c.Client.Ping(ctx).Err()",
+  "c.Client.Ping(ctx).Err",
+  "c.Client.Ping"] : List String) := rfl
+
+theorem skel_clusterClient_Get_ok : skel_clusterClient_Get = ([
+  "return c.ClusterClient.Get(ctx, key).Bytes()",
+  "c.ClusterClient.Get(ctx, key).Bytes",
+  "c.ClusterClient.Get"] : List String) := rfl
+
+theorem skel_clusterClient_Set_ok : skel_clusterClient_Set = ([
+  "return c.ClusterClient.Set(ctx, key, value, expiration).Err()",
+  "c.ClusterClient.Set(ctx, key, value, expiration).Err",
+  "c.ClusterClient.Set"] : List String) := rfl
+
+theorem skel_clusterClient_Del_ok : skel_clusterClient_Del = ([
+  "return c.ClusterClient.Del(ctx, key).Err()",
+  "c.ClusterClient.Del(ctx, key).Err",
+  "c.ClusterClient.Del"] : List String) := rfl
+
+theorem skel_clusterClient_Ping_ok : skel_clusterClient_Ping = ([
+  "return c.ClusterClient.Ping(ctx).Err()",
+  "c.ClusterClient.Ping(ctx).Err",
+  "c.ClusterClient.Ping"] : List String) := rfl
+
 end O2P.Expect.C13
